@@ -30,6 +30,12 @@ Fixpoint map_opt {A B} (f : A -> option B) (l : list A) : option (list B) :=
   | x :: r => match f x, map_opt f r with Some y, Some ys => Some (y :: ys) | _, _ => None end
   end.
 
+Definition quasi_raw (q : node) : option string :=
+  match q with
+  | Node (K KTplElem _ _) [_; _; Node (Str raw) []] => Some raw
+  | _ => None
+  end.
+
 Section Abstract.
   Variable vp : string.       (* prefix of temporaries *)
   Variable hook : string.     (* replacement name of the + operator *)
@@ -174,6 +180,18 @@ Section Abstract.
                 | _, _ => None
                 end
             end
+        | Node (K KTpl _ _) [Node Lst es; Node Lst qs] =>
+            (* a template literal with one or two substitutions (the pieces by their raw text) *)
+            match es, map quasi_raw qs with
+            | [e1], [Some q0; Some q1] =>
+                match abstract f e1 with Some x1 => Some (Tpl1 q0 x1 q1) | None => None end
+            | [e1; e2], [Some q0; Some q1; Some q2] =>
+                match abstract f e1, abstract f e2 with
+                | Some x1, Some x2 => Some (Tpl2 q0 x1 q1 x2 q2)
+                | _, _ => None
+                end
+            | _, _ => None
+            end
         | Node (K KMember _ _) [obj; Node (K KIdentName _ _) [Node (Str mname) []]] =>
             (* a property read: only as the function the rewriter captures *)
             match abstract f obj with Some ox => Some (Get ox mname) | None => None end
@@ -221,6 +239,9 @@ Fixpoint expr_eqb (a b : expr) : bool :=
          | p :: r, q :: s => expr_eqb p q && go r s
          | _, _ => false
          end) xs ys
+  | Tpl1 q0 e q1, Tpl1 p0 e' p1 => String.eqb q0 p0 && expr_eqb e e' && String.eqb q1 p1
+  | Tpl2 q0 e1 q1 e2 q2, Tpl2 p0 f1 p1 f2 p2 =>
+      String.eqb q0 p0 && expr_eqb e1 f1 && String.eqb q1 p1 && expr_eqb e2 f2 && String.eqb q2 p2
   | _, _ => false
   end.
 
